@@ -730,7 +730,7 @@ impl Check for C03 {
         "C03"
     }
     fn plan(&self, tier: Tier) -> Plan {
-        let mut p = Plan::new(tier.pick(60_000, 3_000_000), tier.pick(40.0, 600.0));
+        let mut p = Plan::new(tier.pick(1_500_000, 150_000_000), tier.pick(30.0, 480.0));
         p.mandatory = 1;
         p.cpu_budget_s = 20.0;
         p
